@@ -359,12 +359,15 @@ func (r *Reconciler) selectNodes(logger logr.Logger, daemonset *datadoghqv1alpha
 	if daemonsetSpec.Strategy.Canary.NodeSelector != nil {
 		selector, err := utils.ConvertLabelSelector(logger, daemonsetSpec.Strategy.Canary.NodeSelector)
 		if err != nil {
+			// a node selector that cannot be evaluated matches no node: report it
+			// instead of running the canary on nodes picked among all of them
 			logger.Error(err, "Failed to parse label selector")
-		} else {
-			listOptions = append(listOptions, &client.MatchingLabelsSelector{
-				Selector: selector,
-			})
+
+			return err
 		}
+		listOptions = append(listOptions, &client.MatchingLabelsSelector{
+			Selector: selector,
+		})
 	}
 	err := r.client.List(context.TODO(), nodeList, listOptions...)
 	if err != nil {
